@@ -826,6 +826,17 @@ def _stream_prefix(ctx):
         exp = ("%04x" % (n + 4)).encode()
         if outs[n] != hx(exp):
             ctx.disagree("prefix.model-vs-format", {"payload_len": n}, outs[n], hx(exp))
+    # pkt_seq
+    from dulwich.protocol import pkt_seq
+    seqs = [gen_seq(rng, maxlen=5) for _ in range(ctx.budget(100))] + [[], [None], [b""]]
+    for ps, o in zip(seqs, ctx.driver.batch(["c19.pktseq" + "".join(" " + ("N" if p is None else hx(p)) for p in ps) for ps in seqs])):
+        ctx.count("pktseq", tuple(ps), True, f"len{len(ps)}")
+        if o != hx(pkt_seq(*ps)):
+            ctx.disagree("pktseq", {"payloads": [None if p is None else hx(p) for p in ps]}, o, hx(pkt_seq(*ps)))
+        frames, end, _ = ref_decode(pkt_seq(*ps))
+        if end != "eof" or [f[1] if f[0] == "data" else None for f in frames] != list(ps) + [None]:
+            ctx.oracle_fail("pktseq", {"payloads": [None if p is None else hx(p) for p in ps]},
+                            "pkt_seq(*ps) is not the frames of ps followed by a flush-pkt")
     # flush
     o = ctx.driver.batch(["c19.pktline N", "c19.pktline -", "c19.pktline 00"])
     for arg, oo, p in zip(["N", "-", "00"], o, [None, b"", b"\0"]):
@@ -894,8 +905,8 @@ def _stream_roundtrip(ctx):
     """Payload sequences (in range for one frame) x random partitions through all decoders."""
     rng = ctx.rng
     pend = []
-    n = ctx.budget(1200)
-    nbig = ctx.budget(16, mult=5)
+    n = ctx.budget(2500)
+    nbig = ctx.budget(20, mult=5)
     seqs = [("seq", gen_seq(rng)) for _ in range(n)] + [("big", gen_seq(rng, big_ok=True, maxlen=4)) for _ in range(nbig)]
     # fixed boundary cases of the quantifier: empty, 1 byte, 65515, 65516 bytes; flush/delim mixes
     seqs += [("fixed", s) for s in ([], [None], [b""], [b"a"], [b"", b""], [None, None], [b"a", None, b"", b"b"],
@@ -945,11 +956,14 @@ def _stream_malformed(ctx):
     end), never anything else, for every chunking; plus empty fragments (premature EOF) for the model tie."""
     rng = ctx.rng
     pend = []
-    for _ in range(ctx.budget(2000)):
+    for _ in range(ctx.budget(5000)):
         ps = gen_seq(rng, maxlen=4)
         kind, data = mutate_stream(rng, _enc(ps))
         mode, chunks = random_partition(rng, data, frame_boundaries(ps))
         pend += _check_decoders(ctx, "mal", data, chunks, ps=None, tag=f"{kind}")
+        if len(ctx.samples) < 3 and len(data) < 40:
+            ctx.sample({"stream": "mal", "kind": kind, "bytes": hx(data), "chunk_sizes": [len(c) for c in chunks],
+                        "reference": expect_reader(data, False)[0], "parser_reference": expect_parser(data)})
     # premature EOF from recv (empty fragment) / parse(b""): correspondence only
     for _ in range(ctx.budget(300)):
         ps = gen_seq(rng, maxlen=4)
@@ -979,7 +993,7 @@ def _stream_rpops(ctx):
     from dulwich.protocol import ReceivableProtocol
     rng = ctx.rng
     lines, meta = [], []
-    for _ in range(ctx.budget(1500)):
+    for _ in range(ctx.budget(4000)):
         data = rng.randbytes(rng.choice([0, 1, 5, 20, 60, 200]))
         _, chunks = random_partition(rng, data, [rng.randrange(1, len(data) + 1) for _ in range(3)] if data else [])
         rbufsize = rng.choice([1, 2, 3, 4, 8, 16, 65536])
@@ -1066,7 +1080,7 @@ def _stream_script(ctx):
     eof() probes never changes the decoded payload sequence."""
     rng = ctx.rng
     lines, meta = [], []
-    for _ in range(ctx.budget(1500)):
+    for _ in range(ctx.budget(4000)):
         ps = gen_seq(rng, maxlen=5)
         data = _enc(ps)
         if rng.random() < 0.25:
@@ -1122,9 +1136,9 @@ def _stream_sideband(ctx):
     sizes_small = [0, 1, 2, 100, 5000]
     sizes_big = [65514, 65515, 65516, 65519, 65520, 65521, 131029, 131030, 131031, 200000]
     scen = []
-    for _ in range(ctx.budget(80)):
+    for _ in range(ctx.budget(120)):
         scen.append([(rng.choice([1, 2, 3]), mk_blob(rng, rng.choice(sizes_small))) for _ in range(rng.randint(1, 5))])
-    nb = ctx.budget(6, mult=4)
+    nb = ctx.budget(8, mult=4)
     for i in range(nb):
         scen.append([(rng.choice([1, 2, 3]), mk_blob(rng, sizes_big[(i + ctx.seed) % len(sizes_big)])),
                      (rng.choice([1, 2, 3]), mk_blob(rng, rng.choice(sizes_small)))])
@@ -1146,6 +1160,8 @@ def _sideband_cases(ctx, scen, model=True):
             lines.append(f"c19.sideband {ch} {hx(blob)}")
             meta.append((dict(case, channel=ch, blob_len=len(blob)), "none" if not fr else " ".join(hx(f) for f in fr)))
             ctx.count("sideband.write", (ch, blob), True, f"{min(len(blob) // 65515, 4)}x+{'0' if len(blob) % 65515 == 0 else 'r'}")
+        if len(ctx.samples) < 4:
+            ctx.sample({"stream": "sideband", "writes": [(ch, len(b)) for ch, b in writes], "frame_lens": [len(f) for f in frames]})
         # oracle 1: frames well-formed and within git's limit
         for f in frames:
             frs, end, _ = ref_decode(f)
@@ -1199,7 +1215,7 @@ def _stream_bufwriter(ctx):
     from dulwich.client import _read_side_band64k_data
     rng = ctx.rng
     scen = []
-    for i in range(ctx.budget(600)):
+    for i in range(ctx.budget(1200)):
         big = i % 40 == 0
         bufsize = 65515 if big else rng.choice([1, 4, 5, 6, 9, 12, 16, 33, 100])
         scen.append((bufsize, [mk_blob(rng, rng.choice([0, 1, 2, 3, 5, 8, 13, 30] if not big else [10, 30000, 65000, 65516, 100]))
@@ -1296,7 +1312,7 @@ def _stream_caps(ctx):
         except ValueError:
             return "V"
 
-    for i in range(ctx.budget(1500)):
+    for i in range(ctx.budget(3000)):
         alpha = rng.choice([A_PLAIN, A_PLAIN, A_FULL, A_WSY])
         sha = bytes(rng.choice(b"0123456789abcdef") for _ in range(rng.choice([40, 64])))
         ref = b"refs/" + gen_token(rng, rng.choice([A_PLAIN, bytes(b for b in range(1, 256) if b != 10)]))
@@ -1313,6 +1329,8 @@ def _stream_caps(ctx):
         real = real_extract(extract_capabilities, line)
         add(f"c19.caps.extract {hx(line)}", case, real)
         cls = caps_class(caps)
+        if len(ctx.samples) < 5 and caps and cls is None:
+            ctx.sample({"stream": "caps", "line": line.decode("latin1"), "extracted": real})
         ctx.count("caps.refline", (ref, sha, None if caps is None else tuple(caps)), True, cls or ("no-caps" if caps is None else "wf"))
         # oracle
         if b"\0" in ref:
@@ -1369,7 +1387,7 @@ def _stream_trailer(ctx):
     from dulwich.pack import PackStreamReader
     rng = ctx.rng
     lines, meta = [], []
-    for _ in range(ctx.budget(1000)):
+    for _ in range(ctx.budget(2500)):
         h = rng.choice([20, 32, 1, 2, 3, 5])
         data = rng.randbytes(rng.choice([0, 1, h - 1, h, h + 1, 2 * h, 2 * h + 1, 100]))
         _, chunks = random_partition(rng, data, [h, len(data) - h, len(data) - h + 1])
@@ -1809,7 +1827,9 @@ def replay(ctx: core.Ctx, data: dict) -> int:
     if ctx.oracle_failures:
         for f in ctx.oracle_failures[:5]:
             print("   FAIL:", f["what"][:300])
-        print(f"VIOLATION property=C19 replay={data.get('_path', '<replayed>')}")
+        import sys
+        path = data.get("_path") or (sys.argv[sys.argv.index("--replay") + 1] if "--replay" in sys.argv[:-1] else "<replayed>")
+        print(f"VIOLATION property=C19 replay={path}")
         return 1
     print("replay: property holds on this case" + (" (apart from the known findings above)" if ctx.known_hit else ""))
     return 0
